@@ -1,5 +1,387 @@
-import StraxModel.Model.Basic
+import StraxModel.Lemmas.Pulse
+/-
+  C18 — hit finding and data reduction keep exactly the samples they should.
+  Model: `Model/Pulse.lean` (namespace `Strax.Pulse`); lemmas: `Lemmas/Pulse*.lean`.
+  All theorems are over arbitrary record arrays, thresholds, hit lists and extensions (no size bound).
+-/
 namespace Strax.C18
-open Strax
+open Strax Strax.Pulse
+
+/-! ## find_hits -/
+
+/-- **The returned intervals are exactly the maximal runs of in-record samples at/above threshold, in order.**
+For every input on which `find_hits` returns: `(k, l, r)` is (record index, left, right) of a returned hit iff
+`[l, r)` is a maximal run of samples `>= threshold` among the first `length` samples of record `k`; and the hits
+come ordered by record and, inside a record, strictly from left to right (so no interval is reported twice). -/
+theorem hits_are_maximal_runs (records : List Record) (amp hon : ThrArg) (hits : List Hit)
+    (e : findHits records amp hon = .ok hits) :
+    (∀ k l r, (∃ x ∈ hits, x.recordI = k ∧ x.left = l ∧ x.right = r) ↔
+        ∃ rec thr, records[k]? = some rec ∧ thresholdOf records amp hon rec = .ok thr ∧
+          IsMaxRun (satFlags thr rec) l r) ∧
+    hits.Pairwise (fun x y => x.recordI < y.recordI ∨ (x.recordI = y.recordI ∧ x.right < y.left)) :=
+  findHits_intervals e
+
+/-- **Hit fields, all hits.**  Every returned hit lies inside its record (`left < right ≤ length`) and carries
+`time = record.time + left·dt`, `length = right − left`, the record's `dt` and `channel`, the applied threshold,
+`area = Σ samples[left:right] + (right − left)·(baseline mod 1)` and
+`height = max(0, largest sample of the hit) + (baseline mod 1)` (the accumulator starts at 0). -/
+theorem hit_fields (records : List Record) (amp hon : ThrArg) (hits : List Hit)
+    (e : findHits records amp hon = .ok hits) (x : Hit) (hx : x ∈ hits) :
+    ∃ rec thr, records[x.recordI]? = some rec ∧ thresholdOf records amp hon rec = .ok thr ∧
+      x.left < x.right ∧ x.right ≤ rec.length ∧
+      x.time = rec.time + (x.left : Int) * rec.dt ∧ x.length = x.right - x.left ∧
+      x.dt = rec.dt ∧ x.channel = rec.channel ∧ x.threshold = thr ∧
+      x.area = ⟨(slice rec.samples x.left x.right).sum * rec.baseline.den
+                + ((x.right - x.left : Nat) : Int) * rec.baseline.fracNum, rec.baseline.den⟩ ∧
+      x.height = ⟨maxFrom 0 (slice rec.samples x.left x.right) * rec.baseline.den + rec.baseline.fracNum,
+                  rec.baseline.den⟩ := by
+  obtain ⟨rec, thr, m0, hrec, hthr, hlen, hlt, hmk⟩ := findHits_fields e x hx
+  obtain ⟨rec', thr', hrec', hthr', hrun⟩ := ((findHits_intervals e).1 x.recordI x.left x.right).1 ⟨x, hx, rfl, rfl, rfl⟩
+  rw [hrec] at hrec'; simp only [Option.some.injEq] at hrec'; subst hrec'
+  rw [hthr] at hthr'; simp only [Except.ok.injEq] at hthr'; subst hthr'
+  have hr : x.right ≤ rec.length := by
+    have := hrun.2.1
+    rwa [satFlags_length thr rec hlen] at this
+  refine ⟨rec, thr, hrec, hthr, hlt, hr, ?_, ?_, ?_, ?_, ?_, ?_, ?_⟩
+  all_goals (rw [hmk]; simp [mkHit, trackMT_spec])
+
+/-- **Height and peak time (partial: positive threshold).**  When the applied threshold is positive, the integer part
+of `height` is the largest sample of the hit and `max_time` is the time of its first occurrence.
+Missing for the full statement: hits whose largest sample is ≤ 0 (possible only with a threshold ≤ 0); there the code
+reports `height = 0 + frac` and leaves `max_time` at its previous value — see `hit_height_maxtime_counterexample`. -/
+theorem hit_height_maxtime_partial (records : List Record) (amp hon : ThrArg) (hits : List Hit)
+    (e : findHits records amp hon = .ok hits) (x : Hit) (hx : x ∈ hits) :
+    ∃ rec thr, records[x.recordI]? = some rec ∧ thresholdOf records amp hon rec = .ok thr ∧
+      (0 < thr.num →
+        let s := slice rec.samples x.left x.right
+        let H := maxFrom 0 s
+        H ∈ s ∧ (∀ v ∈ s, v ≤ H) ∧
+        x.height = ⟨H * rec.baseline.den + rec.baseline.fracNum, rec.baseline.den⟩ ∧
+        x.maxTime = rec.time + ((x.left + s.idxOf H : Nat) : Int) * rec.dt) := by
+  obtain ⟨rec, thr, m0, hrec, hthr, hlen, hlt, hmk⟩ := findHits_fields e x hx
+  obtain ⟨rec', thr', hrec', hthr', hrun⟩ := ((findHits_intervals e).1 x.recordI x.left x.right).1 ⟨x, hx, rfl, rfl, rfl⟩
+  rw [hrec] at hrec'; simp only [Option.some.injEq] at hrec'; subst hrec'
+  rw [hthr] at hthr'; simp only [Except.ok.injEq] at hthr'; subst hthr'
+  refine ⟨rec, thr, hrec, hthr, ?_⟩
+  intro hpos s H
+  -- every sample of the hit is positive
+  have hsat : ∀ v ∈ s, 0 < v := by
+    intro v hv
+    obtain ⟨j, h1, h2, h3⟩ := mem_slice hv
+    have hf := hrun.2.2.1 j h1 h2
+    simp only [satFlags, List.getElem?_map, h3, Option.map_some, Option.some.injEq, Q.leInt, decide_eq_true_eq] at hf
+    by_cases h : 0 < v
+    · exact h
+    · have : v * (thr.den : Int) ≤ 0 := Int.mul_nonpos_of_nonpos_of_nonneg (by omega) (by omega)
+      omega
+  -- the hit is not empty
+  have hne : s ≠ [] := by
+    have hr : x.right ≤ rec.length := by
+      have := hrun.2.1
+      rwa [satFlags_length thr rec hlen] at this
+    intro h0
+    have : s.length = x.right - x.left := by
+      simp only [s, slice, List.length_drop, List.length_take, Record.samples]; omega
+    rw [h0] at this; simp at this; omega
+  have hH : 0 < H := by
+    cases hs : s with
+    | nil => exact absurd hs hne
+    | cons v t =>
+      have h1 : v ≤ H := (maxFrom_ge s 0).2 v (by rw [hs]; simp)
+      have h2 : 0 < v := hsat v (by rw [hs]; simp)
+      omega
+  refine ⟨?_, (maxFrom_ge s 0).2, ?_, ?_⟩
+  · rcases maxFrom_mem s 0 with h | h
+    · omega
+    · exact h
+  · rw [hmk]; simp [mkHit, trackMT_spec, s, H]
+  · rw [hmk]
+    simp only [mkHit, trackMT_spec]
+    have : maxFrom 0 s > 0 := hH
+    simp only [s] at this
+    simp only [this, ↓reduceIte, s, H]
+
+/-- the witness of the open finding: threshold 0, a hit `[0, 4)` with peak in sample 1, then an all-zero record -/
+def staleWitness : List Record :=
+  [{ time := 10, length := 4, dt := 2, channel := 0, recordI := 0, pulseLength := 4, area := 0, reductionLevel := 0,
+     baseline := ⟨0, 1⟩, baselineRms := ⟨0, 1⟩, ampBitShift := 0, data := [0, 3, 0, 0] },
+   { time := 30, length := 4, dt := 2, channel := 0, recordI := 0, pulseLength := 4, area := 0, reductionLevel := 0,
+     baseline := ⟨0, 1⟩, baselineRms := ⟨0, 1⟩, ampBitShift := 0, data := [0, 0, 0, 0] }]
+
+/-- **The full peak-time statement is false for the code as it is**: with threshold 0 the second hit (all samples 0,
+record starting at t = 30) is reported with `max_time = 12`, the peak time of the *previous* hit. -/
+theorem hit_height_maxtime_counterexample :
+    (match findHits staleWitness (.scalar ⟨0, 1⟩) (.scalar ⟨0, 1⟩) with
+     | .ok hs => hs.map (fun h => (h.recordI, h.left, h.right, h.time, h.maxTime))
+     | .error _ => []) = [(0, 0, 4, 10, 12), (1, 0, 4, 30, 12)] := by
+  decide
+
+/-! ## record_links -/
+
+/-- **`previous_record`, all inputs.**  `previous_record[i] = j ≥ 0` iff `j` is the last record before `i` in `i`'s channel,
+`i` is a continuing fragment (`record_i ≠ 0`) and `i` starts exactly where `j`'s buffer ends
+(`time_i = time_j + samples_per_record · dt_j`); in every other case the entry is −1. -/
+theorem links_prev_spec (rs : List Record) (prev next : List Int) (e : recordLinks rs = .ok (prev, next)) :
+    prev.length = rs.length ∧
+    ∀ i, i < rs.length →
+      (∀ j : Nat, prev[i]? = some (j : Int) ↔ IsPrevFragment rs (samplesPerRecord rs) j i) ∧
+      (prev[i]? = some (-1) ∨ ∃ j : Nat, prev[i]? = some (j : Int)) :=
+  recordLinks_prev e
+
+/-- **Links connect exactly the time-adjacent fragments (partial: no continuing fragment at time 0 opens a channel).**
+Under `noOrphanAtZero`, `next_record[j] = i ⟺ previous_record[i] = j ⟺` `j`, `i` are consecutive records of one channel,
+`i` continues a pulse and is time-adjacent to `j`; all other entries are −1.
+Missing for the full statement: a record with `record_i ≠ 0` at `time = 0` that is the first of its channel — it
+matches the initial `expected_next_start = 0` with `last_record_seen = −1` and the code writes
+`next_record[−1] = i` (see `links_next_counterexample`). -/
+theorem links_spec_partial (rs : List Record) (prev next : List Int) (e : recordLinks rs = .ok (prev, next))
+    (hz : noOrphanAtZero rs = true) :
+    prev.length = rs.length ∧ next.length = rs.length ∧
+    (∀ i j : Nat, i < rs.length → j < rs.length →
+      ((prev[i]? = some (j : Int) ↔ IsPrevFragment rs (samplesPerRecord rs) j i) ∧
+       (next[j]? = some (i : Int) ↔ IsPrevFragment rs (samplesPerRecord rs) j i))) ∧
+    (∀ i, i < rs.length → (prev[i]? = some (-1) ∨ ∃ j : Nat, prev[i]? = some (j : Int)) ∧
+                          (next[i]? = some (-1) ∨ ∃ j : Nat, next[i]? = some (j : Int))) := by
+  obtain ⟨p1, p2⟩ := recordLinks_prev e
+  obtain ⟨n1, n2⟩ := recordLinks_next e hz
+  refine ⟨p1, n1, ?_, ?_⟩
+  · intro i j hi hj
+    exact ⟨(p2 i hi).1 j, (n2 j hj).1 i⟩
+  · intro i hi
+    exact ⟨(p2 i hi).2, (n2 i hi).2⟩
+
+/-- a lone continuing fragment at time 0 -/
+def orphanWitness : List Record :=
+  [{ time := 0, length := 4, dt := 1, channel := 0, recordI := 1, pulseLength := 8, area := 0, reductionLevel := 0,
+     baseline := ⟨0, 1⟩, baselineRms := ⟨0, 1⟩, ampBitShift := 0, data := [0, 3, 0, 0] }]
+
+/-- **The full link statement is false for the code as it is**: the lone fragment is linked to itself. -/
+theorem links_next_counterexample :
+    (match recordLinks orphanWitness with
+     | .ok (prev, next) => (prev, next)
+     | .error _ => ([], [])) = ([-1], [0]) := by decide
+
+/-! ## cut_outside_hits -/
+
+/-- **A sample survives iff a hit covers it; everything else is zeroed; metadata untouched** (all inputs).
+For every input on which `cut_outside_hits` returns (record array `records`, any hit list, any extensions), with
+`(prev, next)` the arrays `record_links` computes: the result has one record per input record, equal to the input
+record except for `data` and `reduction_level = HITS_ONLY`; and sample `j` of record `m` equals the input sample if
+some hit `h` *covers* it — `m` is `h`'s record, `j < length` and `left − le ≤ j < right + re`; or `m = prev[h.record_i]`
+and `left − le ≤ j − samples_per_record`; or `m = next[h.record_i]` and `j + samples_per_record < right + re` — and is 0
+otherwise. -/
+theorem reduction_keeps_iff (records : List Record) (hits : List HitRef) (le re : Int) (out : List Record)
+    (hne : records ≠ []) (e : cutOutsideHits records hits le re = .ok out) :
+    ∃ prev next, recordLinks records = .ok (prev, next) ∧ out.length = records.length ∧
+      ∀ m r, records[m]? = some r →
+        ∃ d, out[m]? = some { r with data := d, reductionLevel := hitsOnly } ∧ d.length = r.data.length ∧
+          ∀ j, j < r.data.length →
+            ((∃ h ∈ hits, Covers records (samplesPerRecord records) prev next le re h m j) → d[j]? = r.data[j]?) ∧
+            ((¬ ∃ h ∈ hits, Covers records (samplesPerRecord records) prev next le re h m j) → d[j]? = some 0) :=
+  cutOutsideHits_spec hne e
+
+/-- **Single record, fully explicit.**  For an array of one record that is not a continuing fragment at time 0:
+sample `j` survives iff `j < length` and `left − le ≤ j < right + re` for some hit of that record; every other sample
+is 0; all other fields are untouched. -/
+theorem reduction_keeps_iff_single (r : Record) (hits : List HitRef) (le re : Int) (out : List Record)
+    (hz : r.recordI = 0 ∨ r.time ≠ 0) (e : cutOutsideHits [r] hits le re = .ok out) :
+    ∃ d, out = [{ r with data := d, reductionLevel := hitsOnly }] ∧ d.length = r.data.length ∧
+      ∀ j, j < r.data.length →
+        ((∃ h ∈ hits, h.recordI = 0 ∧ j < r.length ∧ (h.left : Int) - le ≤ j ∧ (j : Int) < h.right + re) → d[j]? = r.data[j]?) ∧
+        ((¬ ∃ h ∈ hits, h.recordI = 0 ∧ j < r.length ∧ (h.left : Int) - le ≤ j ∧ (j : Int) < h.right + re) → d[j]? = some 0) := by
+  obtain ⟨prev, next, hl, hlen, hspec⟩ := cutOutsideHits_spec (by simp) e
+  have hc : 0 ≤ r.channel := by
+    by_cases h : r.channel < 0
+    · simp [recordLinks, h] at hl
+    · omega
+  rw [recordLinks_single r hc hz] at hl
+  simp only [Except.ok.injEq, Prod.mk.injEq] at hl
+  obtain ⟨rfl, rfl⟩ := hl
+  obtain ⟨d, hd, hdl, hj⟩ := hspec 0 r (by simp)
+  refine ⟨d, ?_, hdl, ?_⟩
+  · cases out with
+    | nil => simp at hlen
+    | cons o os =>
+      cases os with
+      | nil => simp only [List.getElem?_cons_zero, Option.some.injEq] at hd; rw [hd]; rfl
+      | cons _ _ => simp at hlen
+  · intro j hjl
+    have := hj j hjl
+    simp only [covers_single] at this
+    exact this
+
+/-- a lone continuing fragment at time 0 with a hit in its last sample -/
+def cutWitness : List Record :=
+  [{ time := 0, length := 4, dt := 1, channel := 0, recordI := 1, pulseLength := 8, area := 0, reductionLevel := 0,
+     baseline := ⟨0, 1⟩, baselineRms := ⟨0, 1⟩, ampBitShift := 0, data := [5, 6, 0, 7] }]
+
+/-- **Without the side condition the single-record statement is false**: the hit `[3, 4)` with `re = 2` also keeps
+samples 0 and 1 of the *same* record, through the self-link of `links_next_counterexample`. -/
+theorem reduction_single_counterexample :
+    (match cutOutsideHits cutWitness [⟨0, 3, 4⟩] 0 2 with
+     | .ok out => out.map (·.data)
+     | .error _ => []) = [[5, 6, 0, 7]] := by decide
+
+/-- **Through the links = in the previous / next fragment (partial: `noOrphanAtZero`).**
+Sample `j` of record `m` survives iff there is a hit `h` (in record `k = h.record_i`) with
+`m = k`, `j < length`, `left − le ≤ j < right + re`; or `m` is the previous fragment of `k` and
+`left − le ≤ j − samples_per_record`; or `m` is the next fragment of `k` and `j + samples_per_record < right + re`.
+Missing for the full statement: arrays with a continuing fragment at time 0 that opens its channel. -/
+theorem reduction_keeps_iff_fragments_partial (records : List Record) (hits : List HitRef) (le re : Int) (out : List Record)
+    (hne : records ≠ []) (hz : noOrphanAtZero records = true) (e : cutOutsideHits records hits le re = .ok out) :
+    ∀ m r, records[m]? = some r →
+      ∃ d, out[m]? = some { r with data := d, reductionLevel := hitsOnly } ∧
+        ∀ j : Nat, j < r.data.length →
+          let spr := samplesPerRecord records
+          let keep := ∃ h ∈ hits,
+            (m = h.recordI ∧ j < r.length ∧ (h.left : Int) - le ≤ j ∧ (j : Int) < h.right + re)
+            ∨ (IsPrevFragment records spr m h.recordI ∧ (h.left : Int) - le ≤ (j : Int) - spr ∧ j < spr)
+            ∨ (IsPrevFragment records spr h.recordI m ∧ (j : Int) + spr < h.right + re ∧ j < spr)
+          (keep → d[j]? = r.data[j]?) ∧ (¬ keep → d[j]? = some 0) := by
+  obtain ⟨prev, next, hl, hlen, hspec⟩ := cutOutsideHits_spec hne e
+  obtain ⟨p1, p2⟩ := recordLinks_prev hl
+  obtain ⟨n1, n2⟩ := recordLinks_next hl hz
+  intro m r hr
+  have hm : m < records.length := by
+    rcases Nat.lt_or_ge m records.length with h | h
+    · exact h
+    · simp [List.getElem?_eq_none h] at hr
+  obtain ⟨d, hd, -, hj⟩ := hspec m r hr
+  refine ⟨d, hd, ?_⟩
+  intro j hjl spr keep
+  have hiff : (∃ h ∈ hits, Covers records spr prev next le re h m j) ↔ keep := by
+    constructor
+    · rintro ⟨h, hh, hc⟩
+      refine ⟨h, hh, ?_⟩
+      rcases hc with ⟨h0, r', hr', h1, h2, h3⟩ | ⟨p, hp, hp1, hpm, h1, h2⟩ | ⟨p, hp, hp1, hpm, h1, h2⟩
+      · left
+        rw [← h0, hr] at hr'; simp only [Option.some.injEq] at hr'; subst hr'
+        exact ⟨h0, h1, h2, h3⟩
+      · right; left
+        have hk : h.recordI < records.length := by
+          rcases Nat.lt_or_ge h.recordI prev.length with h' | h'
+          · omega
+          · simp [List.getElem?_eq_none h'] at hp
+        rcases (p2 _ hk).2 with h' | ⟨j', h'⟩
+        · rw [hp] at h'; simp only [Option.some.injEq] at h'; exact absurd h' hp1
+        · rw [hp] at h'; simp only [Option.some.injEq] at h'; subst h'
+          have : m = j' := by omega
+          subst this
+          exact ⟨((p2 _ hk).1 m).1 hp, h1, h2⟩
+      · right; right
+        have hk : h.recordI < records.length := by
+          rcases Nat.lt_or_ge h.recordI next.length with h' | h'
+          · omega
+          · simp [List.getElem?_eq_none h'] at hp
+        rcases (n2 _ hk).2 with h' | ⟨j', h'⟩
+        · rw [hp] at h'; simp only [Option.some.injEq] at h'; exact absurd h' hp1
+        · rw [hp] at h'; simp only [Option.some.injEq] at h'; subst h'
+          have : m = j' := by omega
+          subst this
+          exact ⟨((n2 _ hk).1 m).1 hp, h1, h2⟩
+    · rintro ⟨h, hh, hc⟩
+      refine ⟨h, hh, ?_⟩
+      rcases hc with ⟨h0, h1, h2, h3⟩ | ⟨hp, h1, h2⟩ | ⟨hp, h1, h2⟩
+      · left; exact ⟨h0, r, by rw [← h0]; exact hr, h1, h2, h3⟩
+      · right; left
+        have hk : h.recordI < records.length := by
+          obtain ⟨a, b, -, hb, -⟩ := hp
+          rcases Nat.lt_or_ge h.recordI records.length with h' | h'
+          · exact h'
+          · simp [List.getElem?_eq_none h'] at hb
+        exact ⟨(m : Int), ((p2 _ hk).1 m).2 hp, by omega, by simp, h1, h2⟩
+      · right; right
+        have hk : h.recordI < records.length := by
+          obtain ⟨a, b, ha, -, -⟩ := hp
+          rcases Nat.lt_or_ge h.recordI records.length with h' | h'
+          · exact h'
+          · simp [List.getElem?_eq_none h'] at ha
+        exact ⟨(m : Int), ((n2 _ hk).1 m).2 hp, by omega, by simp, h1, h2⟩
+  have := hj j hjl
+  rw [hiff] at this
+  exact this
+
+/-! ## integrate, zero_out_of_bounds -/
+
+/-- **`integrate` is consistent with the stored baseline.**  The new `area` is an integer nearest to
+`Σ data · 2^shift + (baseline mod 1) · length` (distance ≤ 1/2, written over the baseline's denominator `d`), the even
+one on a tie; nothing else changes. -/
+theorem integrate_consistent (r : Record) (hd : 0 < r.baseline.den) :
+    let d : Int := r.baseline.den
+    let exact := r.data.sum * (2 : Int) ^ r.ampBitShift * d + r.baseline.fracNum * r.length
+    let a := (integrateOne r).area
+    integrateOne r = { r with area := a } ∧
+    2 * (a * d - exact) ≤ d ∧ 2 * (exact - a * d) ≤ d ∧
+    ((2 * (a * d - exact) = d ∨ 2 * (exact - a * d) = d) → (a - r.data.sum * (2 : Int) ^ r.ampBitShift) % 2 = 0) := by
+  intro d exact a
+  obtain ⟨h1, h2, h3⟩ := roundHalfEven_spec (r.baseline.fracNum * (r.length : Int)) r.baseline.den hd
+  refine ⟨rfl, ?_, ?_, ?_⟩
+  all_goals
+    simp only [a, exact, d, integrateOne, Int.add_mul]
+    generalize roundHalfEven (r.baseline.fracNum * (r.length : Int)) r.baseline.den = rh at h1 h2 h3 ⊢
+    generalize r.data.sum * (2 : Int) ^ r.ampBitShift * (r.baseline.den : Int) = sd at *
+  · omega
+  · omega
+  · intro h
+    have : rh % 2 = 0 := h3 (by omega)
+    omega
+
+/-- **`zero_out_of_bounds`** keeps the first `length` samples, zeroes the rest, and changes nothing else. -/
+theorem zero_out_of_bounds_spec (r : Record) :
+    zeroOne r = { r with data := (zeroOne r).data } ∧ (zeroOne r).data.length = r.data.length ∧
+    ∀ j, j < r.data.length → (zeroOne r).data[j]? = if j < r.length then r.data[j]? else some 0 := by
+  unfold zeroOne
+  split
+  · refine ⟨rfl, by simp; omega, ?_⟩
+    intro j hj
+    simp only [List.getElem?_append, List.length_take, List.getElem?_take, List.getElem?_replicate]
+    split <;> split <;> (try split) <;> first | rfl | omega | (simp; omega)
+  · refine ⟨rfl, rfl, ?_⟩
+    intro j hj
+    have : j < r.length := by omega
+    simp [this]
+
+/-! ## non-vacuity: the hypotheses hold on concrete, non-trivial inputs -/
+
+/-- two fragments of one pulse in channel 0 (hit straddling the boundary) and a pulse in channel 1 -/
+def demo : List Record :=
+  [{ time := 10, length := 4, dt := 2, channel := 0, recordI := 0, pulseLength := 7, area := 0, reductionLevel := 0,
+     baseline := ⟨1, 4⟩, baselineRms := ⟨1, 2⟩, ampBitShift := 0, data := [0, 3, 0, 2] },
+   { time := 11, length := 3, dt := 1, channel := 1, recordI := 0, pulseLength := 3, area := 0, reductionLevel := 0,
+     baseline := ⟨0, 1⟩, baselineRms := ⟨2, 1⟩, ampBitShift := 0, data := [1, 4, 4, 0] },
+   { time := 18, length := 3, dt := 2, channel := 0, recordI := 1, pulseLength := 7, area := 0, reductionLevel := 0,
+     baseline := ⟨1, 4⟩, baselineRms := ⟨1, 2⟩, ampBitShift := 0, data := [2, 0, 0, 0] }]
+
+/-- `find_hits` returns on `demo` with a per-channel amplitude and a noise-scaled threshold: four hits -/
+example : (match findHits demo (.perCh [⟨2, 1⟩, ⟨1, 1⟩]) (.scalar ⟨3, 2⟩) with
+           | .ok hs => hs.map (fun h => (h.recordI, h.left, h.right))
+           | .error _ => []) = [(0, 1, 2), (0, 3, 4), (1, 1, 3), (2, 0, 1)] := by decide
+
+/-- the links of `demo`: record 2 continues record 0 -/
+example : (match recordLinks demo with
+           | .ok (prev, next) => (prev, next)
+           | .error _ => ([], [])) = ([-1, -1, 0], [2, -1, -1]) := by decide
+example : noOrphanAtZero demo = true := by decide
+
+/-- the reduction of `demo` returns, and keeps the sample before the straddling hit and the one after it -/
+example : (match cutOutsideHits demo [⟨0, 3, 4⟩, ⟨2, 0, 1⟩] 1 1 with
+           | .ok out => out.map (·.data)
+           | .error _ => []) = [[0, 0, 0, 2], [0, 0, 0, 0], [2, 0, 0, 0]] := by decide
+
+/-- the side condition of the single-record theorem holds for a 0th fragment at time 0 and for any record at time > 0 -/
+example : (demo.map fun r => decide (r.recordI = 0 ∨ r.time ≠ 0)) = [true, true, true] := by decide
+
+/-- a positive threshold (hypothesis of `hit_height_maxtime_partial`): record 1 of `demo` gets max(1, 2·3/2) = 3 -/
+example : (demo.map fun r => match thresholdOf demo (.perCh [⟨2, 1⟩, ⟨1, 1⟩]) (.scalar ⟨3, 2⟩) r with
+           | .ok t => decide (0 < t.num)
+           | .error _ => false) = [true, true, true] := by decide
+
+/-- a record with baseline fraction 1/2 and 5 samples in range: the half-way case 2.5 -/
+def halfWay : Record :=
+  { time := 0, length := 5, dt := 1, channel := 0, recordI := 0, pulseLength := 5, area := 0, reductionLevel := 0,
+    baseline := ⟨1, 2⟩, baselineRms := ⟨0, 1⟩, ampBitShift := 0, data := [1, 1, 0, 0, 0, 0] }
+
+/-- a positive baseline denominator (hypothesis of `integrate_consistent`); 2 + 2.5 is rounded to the even 4 -/
+example : decide (0 < halfWay.baseline.den) = true ∧ (integrateOne halfWay).area = 4 := by decide
 
 end Strax.C18
